@@ -20,6 +20,8 @@ type c18Input struct {
 	Text   string
 	File   string // non-empty: ParseFile on this path
 	FailAt int    // >= 0: the reader fails at this offset
+	// Transient: ... once, with an error that calls itself temporary; the following reads succeed
+	Transient bool
 	// EmptyName: ParseFile("")
 	EmptyName bool
 }
@@ -117,6 +119,12 @@ func c18Inputs(tier string) []c18Input {
 	for _, k := range offs {
 		ins = append(ins, c18Input{Name: fmt.Sprintf("reader-fails-at-%d", k), Text: full, FailAt: k})
 	}
+	// kinds of read error: one that calls itself temporary and is gone at the next read - to a scanner every error is final,
+	// and so it is to whoever promises the scanner's result
+	for _, k := range []int{0, len("a:\n  x: 1\n"), len("a:\n  x: 1\nb:\n") + 2, len(full)} {
+		ins = append(ins, c18Input{Name: fmt.Sprintf("temporary-read-error-at-%d", k), Text: full, FailAt: k, Transient: true})
+	}
+	ins = append(ins, c18Input{Name: "error-then-temporary-read-error", Text: errText, FailAt: len("a:\n  x: 1\n  nosep\n"), Transient: true})
 	if tier == "thorough" {
 		for k := 0; k <= len(errText); k++ {
 			ins = append(ins, c18Input{Name: fmt.Sprintf("input-with-an-error-reader-fails-at-%d", k), Text: errText, FailAt: k})
@@ -135,7 +143,7 @@ func c18Node(n *shared.ParserNode) string {
 
 func (in c18Input) reader() io.Reader {
 	if in.FailAt >= 0 {
-		return &faultReader{data: []byte(in.Text), FailAt: in.FailAt}
+		return &faultReader{data: []byte(in.Text), FailAt: in.FailAt, Transient: in.Transient}
 	}
 	return strings.NewReader(in.Text)
 }
